@@ -17,7 +17,7 @@ cd $wt/$mod
 echo "## build with change" >> $log
 go build ./... >> $log 2>&1; echo "build exit=$?" >> $log
 echo "## existing tests with change: go test -vet=off -count=1 -skip TestSeededDemo ${runre:+-run $runre} $pkg" >> $log
-go test -vet=off -count=1 -timeout 40m -skip 'TestSeededDemo' ${runre:+-run "$runre"} $pkg >> $log 2>&1; e1=$?; echo "existing exit=$e1" >> $log
+go test -vet=off -count=1 -timeout 40m -skip "TestSeededDemo|TestZZSeeded${SKIP:+|$SKIP}" ${runre:+-run "$runre"} $pkg >> $log 2>&1; e1=$?; echo "existing exit=$e1" >> $log
 echo "## demo with change (must fail)" >> $log
 go test -vet=off -count=1 -run "$demo" $pkg 2>&1 | tail -15 >> $log; e2=${PIPESTATUS[0]}; echo "demo-with exit=$e2" >> $log
 cd $wt; git stash -q
